@@ -301,7 +301,7 @@ impl Property for C15 {
             FamId::Ed => transitivity::<ed25519_dalek::SigningKey>(&v)?,
             FamId::CombinedSecp | FamId::CombinedEd => transitivity::<enr::CombinedKey>(&v)?,
             FamId::Var | FamId::Wide => transitivity::<crate::keys::VarKey>(&v)?,
-            FamId::Tiny | FamId::Mid | FamId::Nano | FamId::Big => transitivity::<crate::keys::TinyKey>(&v)?,
+            FamId::Tiny | FamId::Mid | FamId::Nano | FamId::Big | FamId::Clash => transitivity::<crate::keys::TinyKey>(&v)?,
         }
         let nt = v.nontrivial;
         drop(v);
